@@ -219,7 +219,7 @@ impl<K: OneRttKey> KeySet<K> {
         //# Endpoints MUST initiate a key update
         //# before sending more protected packets than the confidentiality limit
         //# for the selected AEAD permits.
-        if self.active_key().needs_update(&self.limits) {
+        if self.active_key().needs_update(&self.limits) && !self.key_update_in_progress() {
             return KeyPhase::next_phase(self.key_phase());
         }
 
